@@ -11,6 +11,7 @@ import (
 	"net/http"
 	"os"
 	"os/exec"
+	"runtime"
 	"strconv"
 	"strings"
 	"sync"
@@ -638,6 +639,7 @@ func runAll(tracePath, reportPath string) {
 	}
 	enc := json.NewEncoder(f)
 	var report []map[string]any
+	leak := startLeakCheck()
 	nmix, nconn := 6, 10
 	if tier == "thorough" {
 		nmix, nconn = 60, 20
@@ -660,11 +662,106 @@ func runAll(tracePath, reportPath string) {
 		report = append(report, scenarioShutdown(enc, i, v))
 	}
 	f.Close()
+	report = append(report, leak.finish())
 	for _, p := range []string{"getcertificate", "connstate-h2", "connstate-h1"} {
 		report = append(report, scenarioPanic(p))
 	}
 	b, _ := json.MarshalIndent(report, "", " ")
 	os.WriteFile(reportPath, b, 0o644)
+}
+
+// ---------------------------------------------------------------- end-of-run goroutine census (C11: "every goroutine serving it ends")
+
+// A second, untraced stack runs beside the scenarios with clients that stall where only the HTTP/2 server's own long timers
+// (10 s preface timeout) end the connection.  When every scenario is over and every server is stopped, no goroutine may be left
+// inside the proxy's packages - whatever connection it once served.
+type leakCheck struct {
+	st    *stack.Stack
+	held  []net.Conn
+	start time.Time
+	err   string
+}
+
+func startLeakCheck() *leakCheck {
+	l := &leakCheck{start: time.Now()}
+	if os.Getenv("VF_CENSUS") != "1" {
+		l.err = "off"
+		return l
+	}
+	st, err := stack.Start(stack.Options{HandshakeTimeout: 2 * time.Second, IdleTimeout: time.Second})
+	if err != nil {
+		l.err = err.Error()
+		return l
+	}
+	l.st = st
+	for _, script := range []string{"h2-half-preface", "h2-no-preface", "h2-preface-no-settings"} {
+		raw, err := net.DialTimeout("tcp", st.Addr, 2*time.Second)
+		if err != nil {
+			l.err = err.Error()
+			return l
+		}
+		tc := tls.Client(raw, &tls.Config{InsecureSkipVerify: true, ServerName: "vf.test", NextProtos: []string{"h2"}})
+		raw.SetDeadline(time.Now().Add(5 * time.Second))
+		if err := tc.Handshake(); err != nil {
+			l.err = "leak-check client handshake: " + err.Error()
+			return l
+		}
+		raw.SetDeadline(time.Time{})
+		switch script {
+		case "h2-half-preface":
+			tc.Write([]byte(h2raw.Preface[:10]))
+		case "h2-preface-no-settings":
+			tc.Write([]byte(h2raw.Preface))
+		}
+		l.held = append(l.held, raw)
+	}
+	return l
+}
+
+func (l *leakCheck) finish() map[string]any {
+	res := map[string]any{"name": "goroutine-census", "family": "leakcheck"}
+	if l.err == "off" {
+		res["off"] = true
+		return res
+	}
+	if l.err != "" {
+		res["error"] = l.err
+		return res
+	}
+	// the stalled clients stay until the server's own 10 s preface timeout has passed
+	if d := 11*time.Second - time.Since(l.start); d > 0 {
+		time.Sleep(d)
+	}
+	for _, c := range l.held {
+		c.Close()
+	}
+	l.st.Close()
+	var leaked []string
+	for try := 0; try < 20; try++ { // goroutines on their way out get two seconds
+		time.Sleep(100 * time.Millisecond)
+		leaked = leaked[:0]
+		buf := make([]byte, 4<<20)
+		buf = buf[:runtime.Stack(buf, true)]
+		for _, g := range strings.Split(string(buf), "\n\n") {
+			if strings.Contains(g, "github.com/wi1dcard/fingerproxy/pkg/") && !strings.Contains(g, "verifharness/cmd/lcdriver.(*leakCheck)") {
+				lines := strings.Split(g, "\n")
+				head := lines[0]
+				for _, ln := range lines[1:] {
+					if strings.Contains(ln, "fingerproxy/pkg/") && !strings.HasPrefix(ln, "\t") {
+						head += " | " + strings.TrimSpace(ln)
+						break
+					}
+				}
+				leaked = append(leaked, head)
+			}
+		}
+		if len(leaked) == 0 {
+			break
+		}
+	}
+	res["leaked"] = leaked
+	res["waited_s"] = time.Since(l.start).Seconds()
+	return res
 }
 
 func (s *Scenario) countOp(op string) int {
